@@ -587,8 +587,10 @@ def lock(only=None):
 def gen_main():
     """Regenerate lean/Driver/Main.lean from the driver modules present."""
     d = os.path.join(LEAN, "Litep2pVerif", "Driver")
-    areas = sorted(f[:-5] for f in os.listdir(d) if re.fullmatch(r"C\d+\.lean", f))
-    lines = ["-- GENERATED by verif.py (gen_main) from Litep2pVerif/Driver/C*.lean — do not edit.",
+    # one driver per area: the property areas `CNN` plus shared areas used by several properties through
+    # `extra_cases` (e.g. `Tcploop`); `Loop.lean` is the generic read-eval-print loop
+    areas = sorted(f[:-5] for f in os.listdir(d) if re.fullmatch(r"[A-Z][A-Za-z0-9]*\.lean", f) and f != "Loop.lean")
+    lines = ["-- GENERATED by verif.py (gen_main) from Litep2pVerif/Driver/*.lean — do not edit.",
              "import Litep2pVerif.Driver.Loop"]
     lines += [f"import Litep2pVerif.Driver.{a}" for a in areas]
     lines += ["open Litep2pVerif.Driver", "", "def main (args : List String) : IO UInt32 := do",
